@@ -36,7 +36,8 @@ ENTRY = ["Grid2D.from_mask", "derive_grid.all_false", "derive_grid.unmasked", "d
          "Mask2D.resized_from", "Mask2D.rescaled_from", "Grid2D.subtracted_from", "Imaging.apply_mask", "Imaging.apply_mask(auto-padded)", "Imaging.apply_noise_scaling", "Imaging.apply_noise_scaling(s2n)", "Imaging.apply_over_sampling",
          "Imaging.trimmed_after_convolution_from", "SimulatorImaging.via_image_from", "preprocess.noise_map_with_signal_to_noise_limit_from",
          "geometry.pixel_coordinates_2d_from", "geometry.grid_pixel_indexes_2d_from", "MapperRectangular", "MapperDelaunay",
-         "BorderRelocator.relocated_grid_from", "derive_mask.origins"]
+         "BorderRelocator.relocated_grid_from", "derive_mask.origins", "ImageMesh.mesh_pixels_per_image_pixels_from",
+         "OverSamplingUniform(shared scheme)"]
 MIN_MONITORS = {"*": dict({"covariance:" + e: 1 for e in ENTRY}, **{"covariance:Hilbert.image_plane_mesh_grid_from": 1})}
 
 
@@ -82,7 +83,7 @@ class Obs:
         self.items[name] = (entry, "rows", rows)
 
 
-def world(ctx, rng_seed, m, ps, origin, kshape):
+def world(ctx, rng_seed, m, ps, origin, kshape, shared=None):
     """Builds every observed quantity at `origin`. All random draws come from rng_seed and are relative to the origin."""
     aa = ctx.aa
     o = np.array(origin, float)
@@ -158,6 +159,27 @@ def world(ctx, rng_seed, m, ps, origin, kshape):
             ob.ties.add("Overlay.image_plane_mesh_grid_from")
     run("Overlay.image_plane_mesh_grid_from", lambda: ob.coord("Overlay.image_plane_mesh_grid_from", "overlay_mesh",
         aa.image_mesh.Overlay(shape=oshape).image_plane_mesh_grid_from(mask=mask)))
+    # count-valued results of the image-mesh helpers: mesh points in generic position (>= 0.1 pixel inside their image pixel)
+    def mesh_counts():
+        k = int(r.integers(5, 40))
+        pi, pj = r.integers(0, H, size=k), r.integers(0, W, size=k)
+        off = r.uniform(-0.4, 0.4, size=(k, 2))
+        rel = np.stack([((H - 1) / 2.0 - pi - off[:, 0]) * ps[0], (pj - (W - 1) / 2.0 + off[:, 1]) * ps[1]], axis=-1)
+        mg = aa.Grid2DIrregular(values=o + rel)
+        im = aa.image_mesh.Overlay(shape=oshape)
+        cnt = im.mesh_pixels_per_image_pixels_from(mask=mask, mesh_grid=mg)
+        ob.inv("ImageMesh.mesh_pixels_per_image_pixels_from", "mesh_counts", np.asarray(_np(cnt.native)).astype(np.int64))
+        for nm, st in (("check_min_pixels", aa.SettingsInversion(image_mesh_min_mesh_pixels_per_pixel=int(r.integers(1, 4)), image_mesh_min_mesh_number=int(r.integers(1, 4)))),):
+            try:
+                im.check_mesh_pixels_per_image_pixels(mask=mask, mesh_grid=mg, settings=st)
+                ob.inv("ImageMesh.mesh_pixels_per_image_pixels_from", nm, np.array([0]))
+            except aa.exc.InversionException:
+                ob.inv("ImageMesh.mesh_pixels_per_image_pixels_from", nm, np.array([1]))
+    run("ImageMesh.mesh_pixels_per_image_pixels_from", mesh_counts)
+    if shared is not None:
+        # ONE over-sampling scheme object used for the structures of both worlds (schemes are descriptions, not tied to a mask)
+        run("OverSamplingUniform(shared scheme)", lambda: ob.coord("OverSamplingUniform(shared scheme)", "shared_scheme.over_sampled",
+            aa.Grid2D.from_mask(mask=mask, over_sampling=shared["uniform"]).over_sampler.over_sampled_grid))
     new_shape = (H + int(r.integers(-1, 4)), W + int(r.integers(-1, 4)))
     run("Mask2D.resized_from", lambda: ob.coord("Mask2D.resized_from", "resized_mask.grid", aa.Grid2D.from_mask(mask=mask.resized_from(new_shape=new_shape, pad_value=0).derive_mask.all_false)))
     run("Mask2D.resized_from", lambda: ob.coord("Mask2D.resized_from", "resized_array.grid", aa.Grid2D.from_mask(mask=aa.Array2D(values=vals.copy(), mask=mask).resized_from(new_shape=new_shape).mask.derive_mask.all_false)))
@@ -224,6 +246,12 @@ def world(ctx, rng_seed, m, ps, origin, kshape):
     run("Imaging.apply_noise_scaling(s2n)", lambda: obs_ds("Imaging.apply_noise_scaling(s2n)", "noise_scaling_s2n", dataset().apply_noise_scaling(mask=mask, signal_to_noise_value=2.0)))
     run("Imaging.apply_over_sampling", lambda: obs_ds("Imaging.apply_over_sampling", "apply_over_sampling",
         dataset().apply_over_sampling(over_sampling=aa.OverSamplingDataset(uniform=aa.OverSamplingUniform(sub_size=2)))))
+    if shared is not None:
+        def shared_ds():
+            ds_ = dataset().apply_mask(mask=mask).apply_over_sampling(over_sampling=shared["dataset"])
+            ob.coord("OverSamplingUniform(shared scheme)", "shared_scheme.ds.uniform.over_sampled", ds_.grids.uniform.over_sampler.over_sampled_grid)
+            ob.coord("OverSamplingUniform(shared scheme)", "shared_scheme.ds.pixelization.over_sampled", ds_.grids.pixelization.over_sampler.over_sampled_grid)
+        run("OverSamplingUniform(shared scheme)", shared_ds)
     run("Imaging.trimmed_after_convolution_from", lambda: obs_ds("Imaging.trimmed_after_convolution_from", "trimmed", dataset().trimmed_after_convolution_from(kernel_shape=kshape))
         if H > kshape[0] and W > kshape[1] else None)
 
@@ -367,8 +395,11 @@ def run_pair(ctx, i):
     d, dk = translation(rng, ps, i)
     seed = int(rng.integers(1 << 31))
     W_ = dict(mask=m, scales=ps, origin=o, d=d, kernel_shape=(ky, kx))
-    a = world(ctx, seed, m, ps, tuple(o), (ky, kx))
-    b = world(ctx, seed, m, ps, tuple(o + d), (ky, kx))
+    aa = ctx.aa
+    shared = {"uniform": aa.OverSamplingUniform(sub_size=int(rng.integers(1, 4)))}
+    shared["dataset"] = aa.OverSamplingDataset(uniform=aa.OverSamplingUniform(sub_size=2), pixelization=aa.OverSamplingUniform(sub_size=int(rng.integers(1, 4))))
+    a = world(ctx, seed, m, ps, tuple(o), (ky, kx), shared)
+    b = world(ctx, seed, m, ps, tuple(o + d), (ky, kx), shared)
     scale = max(max(ps), float(np.abs(d).max()), float(np.abs(o).max()), float(np.abs(o + d).max()))
     compare(ctx, a, b, d, scale, W_)
     ctx.case(m, ps, o, d, nontrivial=bool(d[0] != 0 and d[1] != 0 and d[0] != d[1] and m.any()),
